@@ -155,7 +155,9 @@ pub(crate) fn hook_bytes(file: &StdFile, kind: Kind, offset: u64, parts: &[&[u8]
 }
 
 pub(crate) fn hook_sync(file: &StdFile) -> Option<IOResult<()>> {
-    match decide(Kind::Sync, &path_of(file), 0, 0) {
+    // `len` of a sync event = physical length of the file when the sync is entered: what a successful sync covers at least
+    let covered = file.metadata().map(|m| m.len()).unwrap_or(0);
+    match decide(Kind::Sync, &path_of(file), 0, covered) {
         None => None,
         Some(Action::Delay(ms)) => {
             std::thread::sleep(std::time::Duration::from_millis(ms));
